@@ -230,6 +230,46 @@ Shape_artshare == [root |-> "A",
   uniqfb |-> {"LA", "LR", "A", "FB:A"},
   order |-> <<"E", "LA", "LR", "A", "R">>]
 
+Shape_sha512 == [root |-> "I",
+  blobs |-> {"L5", "L1", "C5", "C2", "E", "B5"},
+  mans |-> ("M5" :> "image") @@ ("M2" :> "image") @@ ("R5" :> "artifact") @@ ("I" :> "index"),
+  kids |-> ("M5" :> <<<<"C5", "config", "", FALSE>>, <<"L5", "layer", "", FALSE>>, <<"L1", "layer", "", FALSE>>>>) @@
+           ("M2" :> <<<<"C2", "config", "", FALSE>>, <<"L5", "layer", "", FALSE>>>>) @@
+           ("R5" :> <<<<"E", "config", "", FALSE>>, <<"B5", "layer", "", FALSE>>>>) @@
+           ("I" :> <<<<"M5", "entry", "linux/amd64", FALSE>>, <<"M2", "entry", "linux/arm64", FALSE>>>>) @@
+           ("FB:M5" :> <<<<"R5", "entry", "", FALSE>>>>),
+  refs |-> {<<"R5", "M5", "sig">>},
+  dtags |-> {},
+  fbs |-> {<<"FB:M5", "M5">>},
+  uniq |-> {"L1", "C5", "C2", "M5", "M2", "E", "B5", "R5", "I"},
+  uniqfb |-> {"L1", "C5", "C2", "M5", "M2", "E", "B5", "I", "FB:M5"},
+  order |-> <<"L5", "L1", "C5", "C2", "M5", "M2", "E", "B5", "R5", "I">>]
+
+Shape_inlinebad == [root |-> "I",
+  blobs |-> {"C", "L1"},
+  mans |-> ("M" :> "image") @@ ("I" :> "index"),
+  kids |-> ("M" :> <<<<"C", "config", "", FALSE>>, <<"L1", "layer", "", FALSE>>>>) @@
+           ("I" :> <<<<"M", "entry", "linux/amd64", FALSE>>>>),
+  refs |-> {},
+  dtags |-> {},
+  fbs |-> {},
+  uniq |-> {"C", "L1", "M", "I"},
+  uniqfb |-> {"C", "L1", "M", "I"},
+  order |-> <<"C", "L1", "M", "I">>]
+
+Shape_dupentry == [root |-> "I",
+  blobs |-> {"C", "L", "C2"},
+  mans |-> ("M" :> "image") @@ ("M2" :> "image") @@ ("I" :> "index"),
+  kids |-> ("M" :> <<<<"C", "config", "", FALSE>>, <<"L", "layer", "", FALSE>>>>) @@
+           ("M2" :> <<<<"C2", "config", "", FALSE>>, <<"L", "layer", "", FALSE>>>>) @@
+           ("I" :> <<<<"M", "entry", "linux/amd64", FALSE>>, <<"M", "entry", "linux/386", FALSE>>, <<"M2", "entry", "linux/arm64", FALSE>>>>),
+  refs |-> {},
+  dtags |-> {},
+  fbs |-> {},
+  uniq |-> {"C", "C2", "M2", "I"},
+  uniqfb |-> {"C", "C2", "M2", "I"},
+  order |-> <<"C", "L", "M", "C2", "M2", "I">>]
+
 Shape_big == [root |-> "M",
   blobs |-> {"C", "LB", "L2"},
   mans |-> ("M" :> "image"),
@@ -258,5 +298,5 @@ Shape_xref == [root |-> "I",
   uniqfb |-> {"C1", "C2", "I", "FB:M1", "FB:M2"},
   order |-> <<"L1", "C1", "C2", "M1", "M2", "I", "X1", "X2">>]
 
-Shapes == ("img" :> Shape_img) @@ ("dup" :> Shape_dup) @@ ("idx2" :> Shape_idx2) @@ ("nested" :> Shape_nested) @@ ("art" :> Shape_art) @@ ("artidx" :> Shape_artidx) @@ ("bentry" :> Shape_bentry) @@ ("docker" :> Shape_docker) @@ ("schema1" :> Shape_schema1) @@ ("ext" :> Shape_ext) @@ ("empty" :> Shape_empty) @@ ("inline" :> Shape_inline) @@ ("dtag" :> Shape_dtag) @@ ("loop" :> Shape_loop) @@ ("diamond" :> Shape_diamond) @@ ("diamond2" :> Shape_diamond2) @@ ("artshare" :> Shape_artshare) @@ ("big" :> Shape_big) @@ ("xref" :> Shape_xref)
+Shapes == ("img" :> Shape_img) @@ ("dup" :> Shape_dup) @@ ("idx2" :> Shape_idx2) @@ ("nested" :> Shape_nested) @@ ("art" :> Shape_art) @@ ("artidx" :> Shape_artidx) @@ ("bentry" :> Shape_bentry) @@ ("docker" :> Shape_docker) @@ ("schema1" :> Shape_schema1) @@ ("ext" :> Shape_ext) @@ ("empty" :> Shape_empty) @@ ("inline" :> Shape_inline) @@ ("dtag" :> Shape_dtag) @@ ("loop" :> Shape_loop) @@ ("diamond" :> Shape_diamond) @@ ("diamond2" :> Shape_diamond2) @@ ("artshare" :> Shape_artshare) @@ ("sha512" :> Shape_sha512) @@ ("inlinebad" :> Shape_inlinebad) @@ ("dupentry" :> Shape_dupentry) @@ ("big" :> Shape_big) @@ ("xref" :> Shape_xref)
 =============================================================================
